@@ -269,7 +269,10 @@ fn check_case(model: &mut Model, c: &Case, mut rep: Option<&mut Report>) -> Opti
         f.extend_from_slice(&[1, 4, if c.m128 { 2 } else { 1 }, 0]);
         f.extend_from_slice(b"SPCR");
         f.extend_from_slice(&8u32.to_le_bytes());
-        f.extend_from_slice(&[0, 0, 0, 0, 0, 0, 0, 0]);
+        // chFe: the speaker/MIC bits the file describes (the loader performs that port write before the frame
+        // position of Z80R is applied: on a fresh machine the level changes at T = 1)
+        let che = [0x00u8, 0x10, 0x18, 0x08, 0x1F][(c.szx / 3) % 5];
+        f.extend_from_slice(&[0, 0, 0, che, 0, 0, 0, 0]);
         f.extend_from_slice(b"Z80R");
         f.extend_from_slice(&37u32.to_le_bytes());
         let mut z = [0u8; 37];
@@ -283,15 +286,22 @@ fn check_case(model: &mut Model, c: &Case, mut rep: Option<&mut Report>) -> Opti
         fc = e.verif_frame_clocks();
         // the model is told where the frame stands: time passes without a sample being due before that point
         // only if the real mixer agrees; a plain wait of that length describes it
-        if fc > 0 {
-            lines.push(format!("w {:x} {:x}", fc, pos_f64(spf, fc, l)));
-            chks.push(Chk::None);
-        }
     }
     // speaker timeline of the current frame, for the edge spec (always policy)
     let mut frame_init = 0usize;
     let mut cur_level = 0usize;
     let mut frame_writes: Vec<(usize, usize)> = vec![];
+    if c.szx > 0 && fc > 1 {
+        let che = [0x00u8, 0x10, 0x18, 0x08, 0x1F][(c.szx / 3) % 5];
+        lines.push(format!("w 1 {:x}", pos_f64(spf, 1, l)));
+        chks.push(Chk::None);
+        lines.push(format!("o {:x}", che));
+        chks.push(Chk::None);
+        cur_level = level_code(che);
+        frame_writes.push((1, cur_level));
+        lines.push(format!("w {:x} {:x}", fc - 1, pos_f64(spf, fc, l)));
+        chks.push(Chk::None);
+    }
     let mut total_popped = 0usize;
     let mut total_frames = 0usize;
     let mut frames_with_writes = 0usize;
